@@ -501,8 +501,22 @@ def c16(ctx):
         texts.append(('bytes/' + label, b))
     for label, t in hostile.shape_texts()[::(9 if quick else 2)]:
         texts.append(('shape', t.encode()))
-    ctx.cov['formatter_texts'] = len(texts)
+    # texts that are ALREADY formatted, bare and wrapped in the white space files usually carry (final newline, blank lines, CRLF)
     v = ctx.vapi
+    nform = 0
+    for label, b in list(texts[:(12 if quick else 80)]):
+        if label != 'valid':
+            continue
+        r = v.call({'op': 'format', 'text_b64': tools.b64(b)}, timeout=120)
+        if r.get('err') or r.get('panic'):
+            continue
+        import base64
+        f0 = base64.b64decode(r.get('out_b64', ''))
+        nform += 1
+        for wrap in (b'%s', b'%s\n', b'\n\n%s\n\n', b'  %s \t\n', b'%s\r\n'):
+            texts.append(('formatted', wrap % f0))
+    ctx.cov['already_formatted_texts'] = nform * 5
+    ctx.cov['formatter_texts'] = len(texts)
     lib = []
     for label, b in texts:
         r = v.call({'op': 'format', 'text_b64': tools.b64(b)}, timeout=120)
@@ -638,11 +652,14 @@ def c16(ctx):
                 # the directory was used before: every file of the new file set already exists with other, LONGER content (an
                 # earlier, larger revision of the protocol), next to a file of the user's that is none of the compiler's business
                 er0 = expect[p.tag][tuple(sub)]
-                for fn, data in er0['files'].get(l, {}).items():
+                for fi, (fn, data) in enumerate(sorted(er0['files'].get(l, {}).items())):
                     fp = os.path.join(wd, name, fn)
                     os.makedirs(os.path.dirname(fp), exist_ok=True)
                     with open(fp, 'wb') as f:
-                        f.write(b'// stale head\n' + data[::-1] + b'\n// stale tail of an earlier, longer revision\n' * 8)
+                        if fi % 2:
+                            f.write(data[::-1])        # other content of exactly the SAME size
+                        else:
+                            f.write(b'// stale head\n' + data[::-1] + b'\n// stale tail of an earlier, longer revision\n' * 8)
                 os.makedirs(os.path.join(wd, name), exist_ok=True)
                 with open(os.path.join(wd, name, KEEP_NAME), 'wb') as f:
                     f.write(KEEP_DATA)
